@@ -17,8 +17,14 @@ UNLINTABLE_EVENTS = ("Code", "InlineMath", "DisplayMath", "Html", "InlineHtml")
 
 
 def run(ck, tier):
+    _run(ck, tier)
+    _scratch(ck, facts.load())
+
+
+def _run(ck, tier):
     ck.rule("R-C04-units", "byte offsets never reach a char-indexed sink unconverted: tree-sitter byte ranges pass byte_spans_to_char_spans (against the very text that was parsed) before they become a Mask or index the source; in Markdown::parse no Span / slice index / shift derives from a pulldown-cmark byte range except through chars().count(); Typst spans are built from OffsetCursor.char, never .byte; in every front-end crate no byte length or byte position of a str/String (len, find, rfind, char_indices ...) reaches Span::new / new_with_len / push_by / pull_by or an index into the char source unless it went through chars().count() (lengths of ASCII literals excepted); the Typst translator hands the English lexer only verbatim source text (ast::Text::get, SyntaxNode::text), never an accessor that resolves escapes")
     ck.rule("R-C04-filter", "what is offered to the English lexer: Markdown::parse calls the English parser only in the Text event and never under a CodeBlock tag; Code/InlineMath/DisplayMath/Html/InlineHtml events and code-block text push only Unlintable tokens; comment/HTML node conditions test the node kind against \"comment\" / \"text\"; CommentMasker filters every allowed span through the ignore predicate")
+    ck.rule("R-C04-scratch", "the tree-sitter front ends decide what is prose from a parse of the current text alone: Parser::parse is given no old tree - or, if one is reused, the edit that describes the change is well formed (start_byte <= old_end_byte and <= new_end_byte: a common prefix and a common suffix counted independently over the same two texts can overlap, e.g. 'aa' -> 'aaa')")
     ck.rule("R-C04-rebase", "per-line comment parsers and Mask::parse re-base inner tokens by the start of the cut (rule instances of R-C02-rebase)")
     ck.not_decided += ["that the tree-sitter grammars classify comments correctly", "without_initiators character classes", "Literate Haskell: ill-formed files (a bird track that does not follow a blank line, \\end{code} outside a block)", "pulldown-cmark's event ranges"]
     p = facts.load()
@@ -801,3 +807,55 @@ def _lhs(ck, p, byk):
             kind, " / ".join(path), [names[l] for l in state_locals], list(cur[0])), {"lines": path})
     else:
         ck.proved(rule, "create_mask:state-machine", f.span, "%d reachable (masker state, convention state) pairs, %d transitions; the classification agrees with the literate conventions on all of them (state variables: %s)" % (len(seen), n_trans, [names[l] for l in state_locals]))
+
+
+# ---------------------------------------------------------------------------------------------------
+def _scratch(ck, p):
+    rule = "R-C04-scratch"
+    sites = []
+    for f in p.fns.values():
+        if not f.name.startswith("harper_tree_sitter::") and not f.name.startswith("harper_comments::") and not f.name.startswith("harper_html::"):
+            continue
+        for bi, t in f.calls():
+            if norm(inst_of(t)).startswith("tree_sitter::{impl}::parse") and method(t) == "parse" and len(t["args"]) >= 3:
+                sites.append((f, bi, t))
+    ck.floor(rule, "tree_sitter::Parser::parse call sites", len(sites), 1)
+    for f, bi, t in sites:
+        ck.saw(f)
+        pv = Prov(f)
+        key = "%s:old-tree" % keyname(p, f)
+        old = [o for o in pv.trace_operand(t["args"][2])]
+        none = bool(old) and all(o[0] == "agg" and str(o).count("None") for o in old)
+        if none:
+            ck.proved(rule, key, f.loc(t["ln"]), "Parser::parse(text, None): every text is parsed from scratch")
+            continue
+        # an old tree is reused: look at how the edit is described
+        edits = []
+        for g in p.fns.values():
+            if not g.name.startswith(f.name.split("::")[0] + "::"):
+                continue
+            for b in g.blocks:
+                for sx in b["s"]:
+                    if sx["k"] == "assign" and sx["rv"]["k"] == "agg" and str(sx["rv"].get("name", "")).endswith("InputEdit"):
+                        edits.append((g, sx))
+        if not edits:
+            ck.undecided(rule, key, f.loc(t["ln"]), "an old tree is handed to Parser::parse, no InputEdit is built in this crate: whether the reused tree matches the text is not decided")
+            continue
+        bad = None
+        for g, sx in edits:
+            gv = Prov(g)
+            ops = sx["rv"]["ops"]
+            def counts(op):
+                return {o[1] for o in arg_roots(g, gv, op) if o[0] == "call" and method(g.blocks[o[1]]["t"]) == "count"}
+            def related(op):
+                return any(o[0] == "call" and method(g.blocks[o[1]]["t"]) in ("min", "saturating_sub", "checked_sub", "max", "clamp") for o in arg_roots(g, gv, op))
+            start_c = counts(ops[0])
+            for k in (1, 2):
+                end_c = counts(ops[k])
+                if start_c and end_c and not (start_c & end_c) and not related(ops[k]) and not related(ops[0]):
+                    bad = (g, sx, k)
+        if bad:
+            g, sx, k = bad
+            ck.refuted(rule, key, g.loc(sx["ln"]), "the old tree is reused with an edit whose start is one run count (the common prefix) and whose %s is a length minus another, independent run count (the common suffix): nothing keeps the two from overlapping, so for a change that repeats its surroundings ('aa' -> 'aaa', a duplicated line) the end lies before the start and tree-sitter keeps node ranges of the old text - code is offered as prose and prose is dropped" % ("old_end_byte" if k == 1 else "new_end_byte"))
+        else:
+            ck.undecided(rule, key, f.loc(t["ln"]), "an old tree is reused; the edit description is not of a recognised shape, whether it is faithful is not decided")
